@@ -160,7 +160,11 @@ pub async fn trigger<T: Any + Send>(t: T) {
             None
         }
         Reaction::Suspend => Some(tx),
-        Reaction::Panic => panic!("Injected panic from barrier"),
+        Reaction::Panic => {
+            // Report the trigger before unwinding so the test can observe it.
+            let _ = to_test.send((Box::new(t), None));
+            panic!("Injected panic from barrier")
+        }
     };
 
     let _ = to_test.send((Box::new(t), waker));
@@ -188,6 +192,8 @@ pub fn trigger_noop<T: Any + Send>(t: T) {
     }
 
     if let Reaction::Panic = reaction {
+        // Report the trigger before unwinding so the test can observe it.
+        let _ = to_test.send((Box::new(t), None));
         panic!("Injected panic from barrier");
     }
 
